@@ -191,6 +191,14 @@ example : FirstOpsWrite ops1 := by
 example : lookupFile (applyWrites [("np/core/core.sdsstub", "stale"), ("other", "x")] ops1) "np/core/core.sdsstub"
     = some "package np.core\n\nclass Array\n\nclass Matrix\n" := by decide +kernel
 
+/-- the same with a directory segment that is a Safe-DS keyword (`internal`): it is back-quoted in the package
+    line of the header that the first (`write`) operation puts into the file -/
+example : ((createStubFiles true [] ["np.internal.Array", "np.internal.Matrix"] []).toOption.map fun ops =>
+      (ops.map (fun o => (o.path, o.mode)),
+       lookupFile (applyWrites [("np/internal/internal.sdsstub", "stale")] ops) "np/internal/internal.sdsstub"))
+    = some ([("np/internal/internal.sdsstub", .write), ("np/internal/internal.sdsstub", .append)],
+            some "package np.`internal`\n\nclass Array\n\nclass Matrix\n") := by decide +kernel
+
 end Examples
 
 end StubGen.C16
